@@ -23,7 +23,7 @@ from wire import tlsref as R
 from wire.container import pcap_bytes, pcapng_bytes
 
 RES = [None, 3, 6, 9, 0x80 | 10, 0x80 | 20]
-OFFS = [None, 0, 3600]
+OFFS = [None, 0, 3600, -86400]
 EXTRA = [(), ("nrb",), ("isb", "custom"), ("custom", "nrb", "isb"), ("spb",), ("spb", "nrb", "spb")]   # spb: a Simple Packet Block holding a frame of no connection
 
 
@@ -46,6 +46,13 @@ def variants(quick, rng):
     # the secrets text inside a secrets block need not end with a line feed, nor have a length that is a multiple of four
     raw = [dict(fmt="pcapng", le=le, tsresol=None, tsoffset=None, extra=(), where="start", pre=False, shb=False, dsb=w, dsbtrim=k)
            for le in (True, False) for w in ("start", "end") for k in (0, 1, 2, 3)]
+    # if_snaplen 0 ("no limit") or a limit no packet exceeds; a first interface of another link type (cooked "any") that carries one stray packet
+    # while every packet of the capture proper is on the second, Ethernet, interface
+    snap = [dict(fmt="pcapng", le=le, tsresol=r, tsoffset=o, extra=(), where="start", pre=False, shb=False, snaplen=sn, **({"second_if": [None, None]} if two_ else {}))
+            for le in (True, False) for r, o in ((None, None), (9, -86400)) for sn in (0, 65535) for two_ in (False, True)]
+    cooked = [dict(fmt="pcapng", le=le, tsresol=r1, tsoffset=o1, extra=e, where="spread", pre=False, shb=False, second_if=[r2, o2], cooked=True)
+              for le in (True, False) for e in ((), ("nrb", "isb")) for r1, o1, r2, o2 in ((None, None, None, None), (9, None, 6, 3600), (6, -86400, 9, None))]
+    allv += snap + cooked if not quick else rng.sample(snap, 6) + rng.sample(cooked, 5)
     return vs + allv + (two if not quick else rng.sample(two, 8)) + (dsb if not quick else rng.sample(dsb, 10)) + \
         (pbs if not quick else rng.sample(pbs, 8)) + (raw if not quick else rng.sample(raw, 6))
 
@@ -63,7 +70,8 @@ def render(pkts, v, kl=""):
     return pcapng_bytes(pkts, le=v["le"], tsresol=v["tsresol"], tsoffset=v["tsoffset"], extra=extra,
                         dsbs=[({"start": 0, "mid": n // 2, "end": n}[w], kl.encode())] if w in ("start", "mid", "end") else (),
                         pre_idb=pre, shb_opts=v["shb"], packet_block=v.get("pb"),
-                        second_if=tuple(v["second_if"]) if v.get("second_if") else None), False
+                        second_if=tuple(v["second_if"]) if v.get("second_if") else None, snaplen=v.get("snaplen", 0x40000),
+                        cooked_first=bool(v.get("cooked"))), False
 
 
 def _one_quic(job):
@@ -91,8 +99,15 @@ def _one_quic(job):
     shas, bad = {}, []
     vs = [dict(fmt="pcap", le=True), dict(fmt="pcap", le=False)] + [dict(fmt="pcapng", le=le, tsresol=r, tsoffset=o) for le in (True, False) for r in (None, 6, 9, 0x80 | 20, 0x80 | 30)
                                                                       for o in (None, 3600)]
+    if step == 1:
+        # the same burst 500 ns / 700 ns apart in containers that can say so (10^-9, 2^-30): different capture times, so still one exported datagram
+        # per captured datagram (the reader's float keeps about 240 ns at today's epoch; closer stamps would collide and fall under C02's caveat)
+        vs += [dict(fmt="pcapng", le=le, tsresol=r, tsoffset=None, sub=ns) for le in (True, False) for r in (9, 0x80 | 30) for ns in (500, 700)]
     for v in vs:
-        if v["fmt"] == "pcap":
+        if v.get("sub"):
+            t0n = cap.pkts[0][0] * 1000
+            data, legacy = pcapng_bytes([((t0n + i * v["sub"], 10 ** 9), fr) for i, (_t, fr) in enumerate(cap.pkts)], le=v["le"], tsresol=v["tsresol"]), False
+        elif v["fmt"] == "pcap":
             data, legacy = pcap_bytes(cap.pkts, le=v["le"]), True
         else:
             data, legacy = pcapng_bytes(cap.pkts, le=v["le"], tsresol=v["tsresol"], tsoffset=v["tsoffset"]), False
@@ -168,7 +183,7 @@ def _one(job):
 def run(chk):
     quick = chk.tier == "quick"
     rng = random.Random(chk.seed)
-    CC = dict(NPkts="3", Resols='{"none","d3","d6","d9","b10","b20"}', Offsets="{0,3600}", ExtraKinds="{0,1,2,3}", PerInterface="TRUE")
+    CC = dict(NPkts="3", Resols='{"none","d3","d6","d9","b10","b20"}', Offsets="{0,3600,-3600}", ExtraKinds="{0,1,2,3}", PerInterface="TRUE")
     r = tlc.run("Container", CC, invariants=["YieldedIndependentOfContainer", "YieldedIsPrefix", "KeysYielded"], timeout=600)
     chk.tlc("Container variants", r)
     r0 = tlc.run("Container", dict(CC, PerInterface="FALSE", ExtraKinds="{}"), invariants=["YieldedIndependentOfContainer"], timeout=600)
